@@ -89,3 +89,12 @@ Example C17_example_verdicts :
   validate example_schema (DObj [("path", DStr "p"); ("x", DStr "s")]) = false /\
   validate example_schema (DArr []) = false.
 Proof. exact example_verdicts. Qed.
+
+(* every member the shipped schema requires of an object is written by the encoder of the Go struct the object is decoded into,
+   under the same name in both encodings and also when empty: the in-memory route (Validate(spec), on the re-encoded value)
+   sees the members the other routes see in the document.  Re-checked against both regenerated fragments on every run. *)
+From CDI Require Import SchemaLayoutTie.
+Theorem C17_required_members_always_encoded :
+  forallb (fun p => required_kept (fst p) (snd p)) object_structs = true.
+Proof. exact required_members_always_encoded. Qed.
+Print Assumptions C17_required_members_always_encoded.
